@@ -86,3 +86,21 @@ def kf_cpy_same_pointer(case, o, kind, cfg, consts):
 def kf_prescan_miss(case, o, kind, cfg, consts):
     # handled inline in props.check_C09 (needs the model verdict): libc-delegating entry, pre-scan accepts, format has an n conversion
     return False
+
+@pred
+def kf_tok_unterm_reads_past(case, o, kind, cfg, consts):
+    # strtok_s/wcstok_s: "while (*dest != 0 ...) { if (dlen == 0) ..." reads dest[dmax] of an unterminated string before testing the remaining length
+    m = case.meta
+    return m.get('cls') == 'tok' and m['dm_rel'] == 'unterm' and kind == 'fault' and o.fault == '0:%d' % (m['dmax'] * m['w'])
+
+@pred
+def kf_tok_empty_delims(case, o, kind, cfg, consts):
+    # an empty delimiter list: no character is ever taken as a token start (ptoken is only set after a failed comparison)
+    m = case.meta
+    if m.get('cls') != 'tok' or kind not in ('wrong-tokens',) or o.fault != '-': return False
+    import props
+    vals = [int(v) for v in o.ret.split(',')]; toks = vals[0::3]
+    ref, _ = props.tok_reference(m['chars'] + [0], m['sets'], m['dmax'], m['w'])
+    want = [(-1 if t is None else t) for t in ref]
+    i = next((k for k in range(len(want)) if toks[k] != want[k]), None)
+    return i is not None and m['sets'][i] == [] and toks[i] == -1
